@@ -118,6 +118,7 @@ def _opt(module, lr=1e-2, kind="adam"):
 def build(name, env, cfg):
     """Returns (call, mods) where call(**loop_kwargs) runs the routine and mods are the observed modules."""
     ns = cfg.get("net_seed", 0)
+    box = cfg.setdefault("_envbox", [env])  # run(..., prebuilt=...) swaps the env in here
     H = [cfg.get("width", 3)]
     lr = cfg.get("lr", 1e-2)
     if name in DISCRETE:
@@ -132,7 +133,7 @@ def build(name, env, cfg):
             from rl_blox.algorithm.dqn import train_dqn
 
             def call(rb, kw):
-                return train_dqn(q, env, rb, opt, **kw)
+                return train_dqn(q, box[0], rb, opt, **kw)
 
             return call, mods
         qt = nnx.clone(q)
@@ -147,7 +148,7 @@ def build(name, env, cfg):
         f = getattr(importlib.import_module(fn[0]), fn[1])
 
         def call(rb, kw):
-            return f(q, env, rb, opt, q_target_net=qt, **kw)
+            return f(q, box[0], rb, opt, q_target_net=qt, **kw)
 
         return call, mods
     if name in ("ddpg", "td3", "td3_lap"):
@@ -170,7 +171,7 @@ def build(name, env, cfg):
         f = {"ddpg": train_ddpg, "td3": train_td3, "td3_lap": train_td3_lap}[name]
 
         def call(rb, kw):
-            return f(env, policy, popt, st.q, st.q_optimizer, replay_buffer=rb, policy_target=pt, q_target=qt, **kw)
+            return f(box[0], policy, popt, st.q, st.q_optimizer, replay_buffer=rb, policy_target=pt, q_target=qt, **kw)
 
         return call, mods
     if name == "sac":
@@ -184,7 +185,7 @@ def build(name, env, cfg):
             mods["entropy_coefficient"] = ec._alpha if hasattr(ec, "_alpha") else _first_module(ec)
 
         def call(rb, kw):
-            return train_sac(env, st.policy, st.policy_optimizer, st.q, st.q_optimizer, replay_buffer=rb, q_target=qt, entropy_control=ec, **kw)
+            return train_sac(box[0], st.policy, st.policy_optimizer, st.q, st.q_optimizer, replay_buffer=rb, q_target=qt, entropy_control=ec, **kw)
 
         r = (call, {k: v for k, v in mods.items() if v is not None})
         return r
@@ -201,7 +202,7 @@ def build(name, env, cfg):
                     critic=st.critic, critic_optimizer=st.critic_optimizer, actor_target=at, critic_target=ct)
 
         def call(rb, kw):
-            return train_td7(env, st.embedding, st.embedding_optimizer, st.actor, st.actor_optimizer, st.critic, st.critic_optimizer,
+            return train_td7(box[0], st.embedding, st.embedding_optimizer, st.actor, st.actor_optimizer, st.critic, st.critic_optimizer,
                              replay_buffer=rb, actor_target=at, critic_target=ct, **kw)
 
         return call, mods
@@ -219,7 +220,7 @@ def build(name, env, cfg):
                     q=st.q, q_optimizer=st.q_optimizer, policy_with_encoder_target=pt, q_target=qt)
 
         def call(rb, kw):
-            return train_mrq(env, st.policy_with_encoder, st.encoder_optimizer, st.policy_optimizer, st.q, st.q_optimizer, st.the_bins,
+            return train_mrq(box[0], st.policy_with_encoder, st.encoder_optimizer, st.policy_optimizer, st.q, st.q_optimizer, st.the_bins,
                              replay_buffer=rb, policy_with_encoder_target=pt, q_target=qt, **kw)
 
         return call, mods
@@ -231,10 +232,35 @@ def build(name, env, cfg):
         reward_model = cfg.get("reward_model") or (lambda act, obs: -jnp.sum(obs**2, axis=-1) - 0.1 * jnp.sum(act**2, axis=-1))
 
         def call(rb, kw):
-            return train_pets(env, reward_model, dm, replay_buffer=rb, **kw)
+            return train_pets(box[0], reward_model, dm, replay_buffer=rb, **kw)
 
         return call, mods
     raise KeyError(name)
+
+
+ACTING = {"dqn": "q", "nature_dqn": "q", "ddqn": "q", "ddqn_per": "q", "ddpg": "policy", "td3": "policy", "td3_lap": "policy",
+          "sac": "policy", "td7": "actor", "mrq": "policy_with_encoder"}
+
+
+def make_recording(obj, sink, batch1=False):
+    """Turn `obj` into an instance of a recording subclass of its own class: rank-1 (single
+    observation) inputs of __call__ are appended to `sink` through an ordered jax.debug.callback,
+    so it sees what the acting network sees under the shipped nnx.jit path too."""
+    cls = obj.__class__
+
+    class Rec(cls):
+        def __call__(self, x, *a, **k):
+            if getattr(x, "ndim", None) == 1:
+                jax.debug.callback(lambda o: sink.append(np.array(o)), x, ordered=True)
+            elif batch1 and getattr(x, "ndim", None) == 2 and x.shape[0] == 1:
+                # greedy_policy(q_net, obs) wraps the single observation into a batch of one
+                jax.debug.callback(lambda o: sink.append(np.array(o)), x[0], ordered=True)
+            return super().__call__(x, *a, **k)
+
+    Rec.__name__ = cls.__name__
+    Rec.__qualname__ = cls.__qualname__
+    obj.__class__ = Rec
+    return obj
 
 
 def _first_module(obj):
@@ -292,9 +318,27 @@ def loop_kwargs(name, script, cfg):
 def run(name, script, **cfg) -> Run:
     _register_logger()
     env = cfg.get("env") or make_env(name, script, cfg)
-    call, mods = build(name, env, cfg)
+    if cfg.get("prebuilt") is not None:
+        # reuse approximators built by an earlier run (only sound when that run did not learn)
+        call, mods, box = cfg["prebuilt"]
+        box[0] = env
+    else:
+        call, mods = build(name, env, cfg)
+        box = cfg["_envbox"]
     rb = cfg.get("replay_buffer") or new_buffer(name, cfg)
-    r = Run(name=name, script=script, cfg=cfg, env=env, mods=mods, rb=rb, snaps=[], result=None, error=None, logger=None)
+    r = Run(name=name, script=script, cfg=cfg, env=env, mods=mods, rb=rb, snaps=[], result=None, error=None, logger=None, prebuilt=(call, mods, box), acting=[])
+    if cfg.get("record_acting") and cfg.get("prebuilt") is None:
+        if name == "pets":
+            inner = cfg.get("reward_model") or (lambda act, obs: -jnp.sum(obs**2, axis=-1) - 0.1 * jnp.sum(act**2, axis=-1))
+
+            def rec_reward(act, obs):
+                jax.debug.callback(lambda o: r.acting.append(np.array(o)), obs[(0,) * (obs.ndim - 1)], ordered=True)
+                return inner(act, obs)
+
+            cfg["reward_model"] = rec_reward
+            call, mods = build(name, env, cfg)
+        else:
+            make_recording(mods[ACTING[name]], r.acting, batch1=name in DISCRETE)
     if cfg.get("snap"):
         def on_step(e):
             r.snaps.append(("step", e.t, S.snap_all(mods)))
